@@ -25,12 +25,15 @@ def multichain_pdb(chains, spacing=60.0):
     different one).  Chain i is translated by i*spacing Angstrom along x so that no inter-chain bond can be guessed."""
     out = ['CRYST1  500.000  500.000  500.000  90.00  90.00  90.00 P 1           1']
     serial = 1
+    labels = 'ABCDEFGHIJ'
+    if '/' in chains:           # 'SPSP/ADCB': the chains carry these labels, in file order
+        chains, labels = chains.split('/')
     for ci, code in enumerate(chains):
         # a lower-case code is the same peptide in a DIFFERENT conformation (stretched by 8% along z): same sequence and
         # topology up to the point where geometry enters (elastic network, geometry-derived link parameters)
         stretch = 1.08 if code.islower() else 1.0
         path = os.path.join(TESTS, PEPTIDES[code.upper()], 'aa.pdb')
-        chain_id = 'ABCDEFGHIJ'[ci]
+        chain_id = labels[ci]
         for line in open(path).read().splitlines():
             if not line.startswith('ATOM'):
                 continue
